@@ -4,6 +4,7 @@
 package c04c16
 
 import (
+	"bytes"
 	"fmt"
 	"math/big"
 	"regexp"
@@ -16,6 +17,7 @@ import (
 	"github.com/mmcloughlin/addchain/acc/ast"
 	"github.com/mmcloughlin/addchain/acc/ir"
 	"github.com/mmcloughlin/addchain/acc/pass"
+	"github.com/mmcloughlin/addchain/acc/printer"
 	"github.com/mmcloughlin/addchain/alg"
 	"github.com/mmcloughlin/addchain/alg/ensemble"
 	"verif/harness/lib"
@@ -155,6 +157,12 @@ func run(fn string, p addchain.Program) string {
 			return "err " + ErrClass(err)
 		}
 		return "ok " + EncodeAST(s)
+	case "rebuild":
+		r, msg := Rebuild(q)
+		if msg != "" {
+			return msg
+		}
+		return "ok " + EncodeAST(r.Trees[0])
 	case "expand":
 		if err := pass.Compile(q); err != nil {
 			return "err " + ErrClass(err)
@@ -200,6 +208,51 @@ func run(fn string, p addchain.Program) string {
 		return "ok -"
 	}
 	panic("unknown function " + fn)
+}
+
+// Rebuilt is what repeated use of one decompiled program gives.
+type Rebuilt struct {
+	Trees []*ast.Chain // acc.Build three times
+	Texts []string     // acc.String, acc.Write, printer.String of the first tree
+	Chain []*big.Int   // q.Chain after all of that
+}
+
+// Rebuild calls acc.Build three times, then acc.String and acc.Write, on the SAME program object.
+// msg is a result line when a call fails or two calls disagree ("" otherwise).
+func Rebuild(q *ir.Program) (*Rebuilt, string) {
+	r := &Rebuilt{}
+	for k := 0; k < 3; k++ {
+		s, err := acc.Build(q)
+		if err != nil {
+			return nil, "err " + ErrClass(err)
+		}
+		r.Trees = append(r.Trees, s)
+	}
+	t1, err := acc.String(q)
+	if err != nil {
+		return nil, "err " + ErrClass(err)
+	}
+	var buf bytes.Buffer
+	if err := acc.Write(&buf, q); err != nil {
+		return nil, "err " + ErrClass(err)
+	}
+	t0, err := printer.String(r.Trees[0])
+	if err != nil {
+		return nil, "err other"
+	}
+	r.Texts = []string{t0, t1, buf.String()}
+	r.Chain = q.Chain
+	for k := 1; k < len(r.Trees); k++ {
+		if EncodeAST(r.Trees[k]) != EncodeAST(r.Trees[0]) {
+			return r, fmt.Sprintf("ok <build %d of the same program differs from build 1: %s>", k+1, EncodeAST(r.Trees[k]))
+		}
+	}
+	for k := 1; k < len(r.Texts); k++ {
+		if r.Texts[k] != r.Texts[0] {
+			return r, fmt.Sprintf("ok <script text %d of the same program differs from the first>", k+1)
+		}
+	}
+	return r, ""
 }
 
 // ---- independent definitions for the oracles ----
@@ -534,6 +587,190 @@ func RandomProgram(r *lib.Rand, n int) addchain.Program {
 	return p
 }
 
+// progBuilder appends duplicate-free operations.
+type progBuilder struct {
+	p    addchain.Program
+	vals []*big.Int
+	seen map[string]bool
+	r    *lib.Rand
+}
+
+func newProgBuilder(r *lib.Rand) *progBuilder {
+	return &progBuilder{vals: []*big.Int{big.NewInt(1)}, seen: map[string]bool{"1": true}, r: r}
+}
+
+// add appends vals[i]+vals[j] (random operand order) unless the value exists; returns its index or -1.
+func (b *progBuilder) add(i, j int) int {
+	v := new(big.Int).Add(b.vals[i], b.vals[j])
+	if b.seen[v.String()] {
+		return -1
+	}
+	b.seen[v.String()] = true
+	b.vals = append(b.vals, v)
+	if b.r.Bool() {
+		i, j = j, i
+	}
+	b.p = append(b.p, addchain.Op{I: i, J: j})
+	return len(b.vals) - 1
+}
+
+// LadderProgram: a "Mersenne ladder" x -> 2x -> 2x+1 up to 2^n - 1, reached from 1 directly or
+// through another route to 3 / 255, so that 2^k - 2 and 2^k - 1 sit side by side for every k up to
+// n; then the neighbours 2^n, 2^n + 1 of the top; with occasional extra additions on the way and a
+// tail that reads the interesting elements again, so that they are named intermediate statements
+// rather than inlined or final.
+func LadderProgram(r *lib.Rand, n int, route int, extras bool) addchain.Program {
+	b := newProgBuilder(r)
+	top, k := 0, 1 // vals[top] = 2^k - 1
+	interesting := []int{}
+	switch route {
+	case 1: // 3 = 2 + 1, then the ladder
+		d := b.add(0, 0)
+		top, k = b.add(d, 0), 2
+	case 2: // 255 = 240 + 15 without passing 127
+		i2 := b.add(0, 0)
+		i3 := b.add(i2, 0)
+		i6 := b.add(i3, i3)
+		i12 := b.add(i6, i6)
+		i15 := b.add(i12, i3)
+		x := i15
+		for t := 0; t < 4; t++ {
+			x = b.add(x, x)
+		}
+		top, k = b.add(x, i15), 8
+		interesting = append(interesting, i15, x)
+	}
+	for ; k < n; k++ {
+		d := b.add(top, top) // 2^(k+1) - 2
+		if d < 0 {
+			break
+		}
+		if extras && r.Chance(1, 4) {
+			if e := b.add(d, r.Intn(len(b.vals))); e >= 0 {
+				interesting = append(interesting, e)
+			}
+		}
+		t := b.add(d, 0) // 2^(k+1) - 1
+		if t < 0 {
+			break
+		}
+		if k+1 >= 8 {
+			interesting = append(interesting, d, t)
+		}
+		top = t
+		if extras && r.Chance(1, 5) {
+			b.add(top, r.Intn(len(b.vals)))
+		}
+	}
+	// neighbours of the top: 2^n, 2^n + 1, 2^n + 2
+	x := top
+	for t := 0; t < 3; t++ {
+		if y := b.add(x, 0); y >= 0 {
+			interesting = append(interesting, y)
+			x = y
+		}
+	}
+	// tail: read the interesting elements again
+	for t, m := 0, r.Range(2, 6); t < m && len(interesting) > 0; t++ {
+		i := interesting[r.Intn(len(interesting))]
+		j := interesting[r.Intn(len(interesting))]
+		if r.Chance(1, 3) {
+			j = len(b.vals) - 1
+		}
+		b.add(i, j)
+	}
+	return b.p
+}
+
+// BoundaryProgram: 2^n by a doubling run, then 2^n + 1, 2^n + 2 and, through a second route,
+// 2^n - 1 and 2^n - 2 (= sum of the lower powers), all read again afterwards.
+func BoundaryProgram(r *lib.Rand, n int) addchain.Program {
+	b := newProgBuilder(r)
+	pow := []int{0}
+	for k := 1; k <= n; k++ {
+		pow = append(pow, b.add(pow[k-1], pow[k-1]))
+	}
+	hot := []int{pow[n]}
+	// 2^n - 2 = 2 + 4 + ... + 2^(n-1), then 2^n - 1
+	acc := pow[1]
+	for k := 2; k < n; k++ {
+		if a := b.add(acc, pow[k]); a >= 0 {
+			acc = a
+		}
+	}
+	hot = append(hot, acc)
+	if a := b.add(acc, 0); a >= 0 {
+		hot = append(hot, a)
+	}
+	if a := b.add(pow[n], 0); a >= 0 {
+		hot = append(hot, a)
+		if c := b.add(a, 0); c >= 0 {
+			hot = append(hot, c)
+		}
+	}
+	for t, m := 0, r.Range(2, 5); t < m; t++ {
+		b.add(hot[r.Intn(len(hot))], hot[r.Intn(len(hot))])
+		b.add(len(b.vals)-1, hot[r.Intn(len(hot))])
+	}
+	return b.p
+}
+
+// Neighbours of a case: one operand changed, an op removed, an op inserted, operand order flipped.
+func Neighbours(c string, r *lib.Rand, emit func(string)) {
+	f := strings.Split(c, " ")
+	if len(f) != 2 {
+		return
+	}
+	p := ParseOps(f[1])
+	out := func(q addchain.Program) {
+		if Valid(q) {
+			emit(f[0] + " " + FormatOps(q))
+		}
+	}
+	clone := func() addchain.Program { return append(addchain.Program{}, p...) }
+	for t := 0; t < 12 && len(p) > 0; t++ {
+		q := clone()
+		k := r.Intn(len(q))
+		switch r.Intn(4) {
+		case 0: // operand changed
+			if r.Bool() {
+				q[k].I = r.Intn(k + 1)
+			} else {
+				q[k].J = r.Intn(k + 1)
+			}
+		case 1: // order flipped
+			q[k].I, q[k].J = q[k].J, q[k].I
+		case 2: // op removed; later references shift down
+			q = append(q[:k], q[k+1:]...)
+			for m := k; m < len(q); m++ {
+				if q[m].I > k {
+					q[m].I--
+				}
+				if q[m].J > k {
+					q[m].J--
+				}
+			}
+		case 3: // op inserted; later references shift up
+			ins := addchain.Op{I: r.Intn(k + 1), J: r.Intn(k + 1)}
+			q = append(q[:k], append(addchain.Program{ins}, q[k:]...)...)
+			for m := k + 1; m < len(q); m++ {
+				if q[m].I > k {
+					q[m].I++
+				}
+				if q[m].J > k {
+					q[m].J++
+				}
+			}
+		}
+		out(q)
+	}
+	// the same program truncated: smaller failing inputs
+	if len(p) > 1 {
+		out(p[:len(p)/2])
+		out(p[:len(p)-1])
+	}
+}
+
 // Targets of cryptographic shape for the search algorithms.
 func searchTargets(r *lib.Rand, tier string) []*big.Int {
 	one := big.NewInt(1)
@@ -581,12 +818,20 @@ func searchPrograms(r *lib.Rand, tier string, f func(addchain.Program)) {
 	}
 }
 
-// Gen emits, for every generated program, one case line per function in fns.
-func Gen(fns []string) func(tier string, r *lib.Rand, emit func(string)) {
+// Gen emits, for every generated program, one case line per function in fns; the structured
+// streams (not the exhaustive small scope) also get the functions in more.
+func Gen(fns []string, more []string) func(tier string, r *lib.Rand, emit func(string)) {
 	return func(tier string, r *lib.Rand, emit func(string)) {
 		out := func(p addchain.Program) {
 			s := FormatOps(p)
 			for _, fn := range fns {
+				emit(fn + " " + s)
+			}
+		}
+		outAll := func(p addchain.Program) {
+			out(p)
+			s := FormatOps(p)
+			for _, fn := range more {
 				emit(fn + " " + s)
 			}
 		}
@@ -634,15 +879,35 @@ func Gen(fns []string) func(tier string, r *lib.Rand, emit func(string)) {
 		for n := 1; n <= suffix; n++ {
 			exhaustiveFrom(9, n, out)
 		}
+		// (a'') naming boundaries: Mersenne ladders (2^k - 2 next to 2^k - 1 for every k up to n),
+		// from 1, through 3, through another route to 255; and 2^n -2, -1, +0, +1, +2 around a
+		// doubling run; n up to 24, every program with a tail that reads these elements again
+		reps := 1
+		if tier == "thorough" {
+			reps = 8
+		}
+		for n := 2; n <= 24; n++ {
+			for route := 0; route < 3; route++ {
+				outAll(LadderProgram(r, n, route, false))
+				for k := 0; k < reps; k++ {
+					outAll(LadderProgram(r, n, route, true))
+				}
+			}
+			if n >= 3 {
+				for k := 0; k < reps; k++ {
+					outAll(BoundaryProgram(r, n))
+				}
+			}
+		}
 		// (b) structured random programs
 		for i := 0; i < nrand; i++ {
-			out(RandomProgram(r, r.Range(6, 40)))
+			outAll(RandomProgram(r, r.Range(6, 40)))
 		}
 		for i := 0; i < nlong; i++ {
-			out(RandomProgram(r, r.Range(60, 400)))
+			outAll(RandomProgram(r, r.Range(60, 400)))
 		}
 		// (c) what the search algorithms return
-		searchPrograms(r, tier, out)
+		searchPrograms(r, tier, outAll)
 		// (d) malformed: operands out of range, forward references, duplicates
 		for i := 0; i < nbad; i++ {
 			p := RandomProgram(r, r.Range(1, 12))
